@@ -360,17 +360,17 @@ func ruleR01d(c *Check, rule string) {
 		return
 	}
 	complete := ex.Complete
-	writes := callsToFn(c, complete, ex.Write)
+	writes := sitesReaching(c, complete, fnSet(ex.Write))
 	reg := c.P.Type("output", "Registry")
-	// producers: calls in `complete` on *output.Registry returning (*gen.TargetResult, error)
-	var producers []ssa.CallInstruction
-	for _, s := range engine.SitesIn(complete) {
+	// producers: calls on *output.Registry returning (*gen.TargetResult, error), in `complete` or in helpers
+	// of it that forward the producer's error
+	producers, leaks := liftedSites(c, complete, func(s ssa.CallInstruction) bool {
 		sig := s.Common().Signature()
-		if sig.Results().Len() == 2 && engine.TypeKey(sig.Results().At(0).Type()) == "proto/gen.TargetResult" && engine.ErrResultIndex(sig) == 1 {
-			if sig.Recv() != nil && reg != nil && engine.TypeKey(sig.Recv().Type()) == "output.Registry" {
-				producers = append(producers, s)
-			}
-		}
+		return sig.Results().Len() == 2 && engine.TypeKey(sig.Results().At(0).Type()) == "proto/gen.TargetResult" && engine.ErrResultIndex(sig) == 1 &&
+			sig.Recv() != nil && reg != nil && engine.TypeKey(sig.Recv().Type()) == "output.Registry"
+	}, 0)
+	for _, l := range leaks {
+		c.Bad(rule, "result-after-outputs/"+c.P.FuncName(complete), "an output-producing helper loses the producer's error: "+l, "-")
 	}
 	if len(producers) == 0 || len(writes) == 0 {
 		c.Unknown(rule, "result-after-outputs/"+c.P.FuncName(complete), "could not identify the output-producing calls or the result write", "-")
